@@ -103,6 +103,9 @@ def child_of_map(rng, node, labels, depth, hostile):
         if r < 0.15:
             labels.add('edit:map-delete')
             out[k] = '$delete'
+        elif r < 0.19 and hostile > 0:
+            labels.add('edit:null-child')
+            out[k] = None
         elif v is None:
             labels.add('edit:over-null')
             out[k] = tree(rng, 1, 2)
